@@ -23,14 +23,16 @@ def pred_closure(prog, parent, idx):
     for b in prog.bodies.values():
         if b.get("promoted") or not b["path"].startswith(parent + "::{closure") or b["arg_count"] < 2:
             continue
-        if prog.types[b["locals"][2]["ty"]]["s"].startswith("&observe::Observer<") and prog.types[b["locals"][0]["ty"]]["s"] == "bool":
+        pt = prog.types[b["locals"][2]["ty"]]["s"]
+        core_t = pt.replace("&mut ", "").replace("&", "")
+        if pt.startswith("&") and core_t.startswith("observe::Observer<") and prog.types[b["locals"][0]["ty"]]["s"] == "bool":
             cands.append(b)
     if len(cands) == 1:
         return cands[0]
     return closure_body(prog, parent, list(idx))
 
 
-def run_method(prog, name, hooks=None, ret_closures=()):
+def run_method(prog, name, hooks=None, ret_closures=(), store_hooks=None):
     gargs = (("param", "Endpoint"),)
     body = find_body(prog, SUBJ + name)
     if body is None:
@@ -55,6 +57,9 @@ def run_method(prog, name, hooks=None, ret_closures=()):
     if hooks:
         for h in hooks:
             I.call_hooks.append(h)
+    if store_hooks:
+        for h in store_hooks:
+            I.store_hooks.append(h)
     I.no_join_bodies.add(body["id"])
     I, res = run(prog, body, args=args, st=st, I=I, gargs=gargs)
     return I, res, results, body, args
@@ -159,15 +164,22 @@ def rest_of_check(prog, rep, i_unack, i_mid):
         def reg_hook(I_, s, call, cbody):
             if call.ctx.depth != 0:
                 return
-            if call.path.endswith("IndexMut<I>>::index_mut"):
-                s.ghost[("inj", "index_mut")] = True
-            elif call.path == "alloc::vec::Vec::<T, A>::push":
+            if call.path == "alloc::vec::Vec::<T, A>::push":
                 s.ghost[("inj", "push")] = True
                 marks.append(call.args[1])
             elif call.path in ("alloc::vec::Vec::<T, A>::insert", "alloc::vec::Vec::<T, A>::remove", "alloc::vec::Vec::<T, A>::clear",
                                "alloc::vec::Vec::<T, A>::retain", "alloc::vec::Vec::<T, A>::truncate", "alloc::vec::Vec::<T, A>::swap_remove"):
                 s.ghost[("inj", "other:" + call.name)] = True
-        out = run_method(prog, "register", hooks=[reg_hook])
+        n_obs_fields = len(prog.adts["observe::Observer"]["variants"][0]["fields"])
+
+        def reg_store(I_, ctx, s, place, v, site_):
+            # replacing in place: a whole observer is stored into an element of the list (through an index, or
+            # through the reference a search over the list handed out)
+            if ctx.depth == 0 and isinstance(v, StructV) and len(v.fields) == n_obs_fields and isinstance(place.key, tuple) \
+                    and place.key[0] == "h" and not place.proj:
+                s.ghost[("inj", "index_mut")] = True
+                marks.append(v)
+        out = run_method(prog, "register", hooks=[reg_hook], store_hooks=[reg_store])
         if out is None:
             rep.missing("C14.2", SUBJ + "register")
         else:
